@@ -892,11 +892,41 @@ def m_find_range(I, st, call, itv):
     rs = call_fn_value(I, st, call, f, fty, [RefV(Place(key), False)], "find")
     if rs is None:
         return None
+    lo_v = itv.fields[0] if isinstance(itv, StructV) else (itv.get("lo") if isinstance(itv, OpaqueV) else None)
     for s, rv in rs:
         rv = I.as_int(s, rv, BOOL, "pred")
         c = rv.cond if rv.cond is not None else ("cmp", "Ne", rv.aff, Aff.const(0))
         for s2 in assume(s, c, True):
-            out.append((s2, mk_option(I, item, call.dest_ty)))
+            # first match: every earlier index fails the predicate - in particular the one just before
+            # (evaluated without recording: the sites were already visited for the item itself)
+            if isinstance(lo_v, IntV) and isinstance(item, IntV):
+                first = s2.copy()
+                first.add_eq(item.aff, lo_v.aff)
+                if not first.dead:
+                    out.append((first, mk_option(I, item, call.dest_ty)))
+                s2.add_fact(item.aff - lo_v.aff - 1)
+                if s2.dead:
+                    continue
+                saved = I.recording
+                I.recording = False
+                try:
+                    I.nsym += 1
+                    k2 = ("h", "finditem*%d" % I.nsym)
+                    s2.cells[k2] = IntV(item.aff - 1, item.ty)
+                    rs2 = call_fn_value(I, s2, call, f, fty, [RefV(Place(k2), False)], "find-prev")
+                finally:
+                    I.recording = saved
+                if rs2 is None:
+                    out.append((s2, mk_option(I, item, call.dest_ty)))
+                    continue
+                for s3, rv3 in rs2:
+                    rv3 = I.as_int(s3, rv3, BOOL, "pred")
+                    c3 = rv3.cond if rv3.cond is not None else ("cmp", "Ne", rv3.aff, Aff.const(0))
+                    for s4 in assume(s3, c3, False):
+                        s4.cells.pop(k2, None)
+                        out.append((s4, mk_option(I, item, call.dest_ty)))
+            else:
+                out.append((s2, mk_option(I, item, call.dest_ty)))
     return out
 
 
@@ -1276,6 +1306,10 @@ def m_str_find(I, st, call):
         c = I.fresh_int(s_probe, "char", (32, False), 0, 0x10FFFF)
         call_fn_value(I, s_probe, call, pat, pty, [c], "pat")
     s0 = st.copy()
+    if isinstance(pat, IntV) and pat.aff.is_const():
+        # not found: the searched region is free of the character
+        key = ("absent", pat.aff.c)
+        s0.ghost[key] = tuple(s0.ghost.get(key, ())) + ((s.base, s.off, s.len),)
     i = I.fresh_int(st, "found", USIZE, 0, ISIZE_MAX)
     st.add_fact(s.len - i.aff - 1)
     width = 1 if isinstance(pat, IntV) and pat.aff.is_const() and pat.aff.c < 0x80 else None
